@@ -235,7 +235,10 @@ def c12(chk, tier):
             "A128,A127,A0,R10", "A32,A33,A34,R34", "H,H,A12,h,X,R12",
             "N9,R10,R12", "N-1,N200,N65,R10", "N14,R10,N19,X,R12", "N11,A12,R12",
             "A2147483647,A12,R12", "A1073741824,R10", "A-2147483648,A1000000,R10",
-            "A138,A266,R10", "A12,A140,A268,R12"]
+            "A138,A266,R10", "A12,A140,A268,R12",
+            # watched signals added in non-ascending order, then added again
+            "A14,A12,A12,A14,R12,R14,R10", "A28,A12,A1,A12,A28,A1,A10,R1,R12,R28,R10,X",
+            "A12,A1,A9,A1,A12,R1,R12"]
     if tier == "thorough":
         nums = [-3, -1, 0, 1, 4, 8, 9, 11, 14, 19, 31, 32, 33, 34, 64, 65, 100, 127, 128, 129, 131,
                 2147483647, -2147483648]
